@@ -22,6 +22,65 @@ theorem setEnd_spec (a : Axis) (v : Int) (h : 0 ≤ a.ext) :
   cases f <;> simp only [Axis.setEnd, Axis.beginPt, Axis.endPt, iabs] at * <;>
     (repeat' split) <;> simp_all <;> omega
 
+/-- the stored offset and extent of an axis are the lesser end point and the distance of the two -/
+theorem axis_pos_ext (a : Axis) (h : 0 ≤ a.ext) :
+    a.pos = min a.beginPt a.endPt ∧ a.ext = iabs (a.beginPt - a.endPt) := by
+  obtain ⟨p, e, f⟩ := a
+  cases f <;> simp only [Axis.beginPt, Axis.endPt, iabs] at * <;> (repeat' split) <;> simp_all <;> omega
+
+/-- **An accepted end-point assignment writes only values that lie in their XML types, and a refused one changes
+    nothing**: when the checked begin setter accepts `v`, the axis reads `v` at its begin point, its end point has not
+    moved, and the offset and extent it stores are inside `ST_Coordinate` / `ST_PositiveCoordinate` — so no attribute
+    write later in the setter can raise, which is what makes the refusal (`none`: the state is not touched at all)
+    the ONLY way the call fails. For every axis with a non-negative extent and every integer `v`. -/
+theorem setBeginChecked_spec (a : Axis) (v : Int) (h : 0 ≤ a.ext) (a' : Axis) (hs : a.setBeginChecked v = some a') :
+    a'.beginPt = v ∧ a'.endPt = a.endPt ∧ a'.writable = true := by
+  simp only [Axis.setBeginChecked] at hs
+  split at hs
+  · rename_i hc
+    injection hs with hs; subst hs
+    obtain ⟨h1, h2, h3⟩ := setBegin_spec a v h
+    obtain ⟨hp, he⟩ := axis_pos_ext (a.setBegin v) h3
+    refine ⟨h1, h2, ?_⟩
+    simp only [Bool.and_eq_true, spanOk] at hc
+    simp only [Axis.writable, Bool.and_eq_true]
+    rw [hp, he, h1, h2]
+    exact hc.2
+  · cases hs
+
+theorem setEndChecked_spec (a : Axis) (v : Int) (h : 0 ≤ a.ext) (a' : Axis) (hs : a.setEndChecked v = some a') :
+    a'.endPt = v ∧ a'.beginPt = a.beginPt ∧ a'.writable = true := by
+  simp only [Axis.setEndChecked] at hs
+  split at hs
+  · rename_i hc
+    injection hs with hs; subst hs
+    obtain ⟨h1, h2, h3⟩ := setEnd_spec a v h
+    obtain ⟨hp, he⟩ := axis_pos_ext (a.setEnd v) h3
+    refine ⟨h1, h2, ?_⟩
+    simp only [Bool.and_eq_true, spanOk] at hc
+    simp only [Axis.writable, Bool.and_eq_true]
+    rw [hp, he, h1, h2]
+    have e1 : min a.beginPt v = min v a.beginPt := Int.min_comm _ _
+    have e2 : iabs (a.beginPt - v) = iabs (v - a.beginPt) := by simp only [iabs]; (repeat' split) <;> omega
+    rw [e1, e2]
+    exact hc.2
+  · cases hs
+
+/-- the refusal is exact: an assignment is refused precisely when the coordinate or the span it would produce cannot
+    be written -/
+theorem setBeginChecked_none_iff (a : Axis) (v : Int) :
+    a.setBeginChecked v = none ↔ ¬ (inCoord v = true ∧ spanOk v a.endPt = true) := by
+  simp only [Axis.setBeginChecked]
+  split <;> simp_all
+
+/-- a refused assignment leaves every reading of the connector as it was (the step returns the state it was given) -/
+theorem stepChecked_refused (c : Cxn) (op : CxnOp) (h : (c.stepChecked op).2 = false) : (c.stepChecked op).1 = c := by
+  cases op <;> simp only [Cxn.stepChecked] at h ⊢ <;> split <;> simp_all
+
+example : (Axis.new 27273042316900 0).setBeginChecked 4394200 = some (Axis.new 4394200 0) := by decide
+example : (Axis.new 0 27273042316900).setBeginChecked (-27273042316900) = none := by decide
+example : ((Cxn.new 0 0 27273042316900 10).stepChecked (.beginX (-27273042316900))) = (Cxn.new 0 0 27273042316900 10, false) := by decide
+
 /-- A connector created from `(b, e)` reports `b` and `e` and has a non-negative extent. -/
 theorem new_spec (b e : Int) :
     (Axis.new b e).beginPt = b ∧ (Axis.new b e).endPt = e ∧ 0 ≤ (Axis.new b e).ext := by
